@@ -193,7 +193,9 @@ class SimulatorBase(
             yield self._create_step_result(sim_state)
             return
 
-        noisy_moments = self.noise.noisy_moments(circuit, sorted(circuit.all_qubits()))
+        # The noise model sees the qubits of the whole simulated system: `circuit` may be only the
+        # measurement-free prefix or the remainder of the program, in which some qubits are idle.
+        noisy_moments = self.noise.noisy_moments(circuit, sorted(sim_state.qubits))
         measured: dict[tuple[cirq.Qid, ...], bool] = collections.defaultdict(bool)
         for moment in noisy_moments:
             for op in ops.flatten_to_ops(moment):
